@@ -251,6 +251,19 @@ Theorem table_roundtrip_partial : forall (dbg be eh : bool) (pos : N) (t : ftabl
     Forall (tile_reads_back be (t_cies t) (t_fdes t)) chunks.
 Proof. exact table_roundtrip_partial_pack. Qed.
 
+Definition table_ex : ftable := mkTable [cie_a; cie_b] [(0%nat, fde_a 4096); (1%nat, fde_a 8192); (0%nat, fde_a 12288)].
+Example table_hyps_ex :
+  Forall (fun c => cie_wf c = true /\ is_pow2 (c_asize c) = true) (t_cies table_ex) /\
+  Forall (fun p => fde_wf (snd p) = true /\
+                   exists c, nth_error (t_cies table_ex) (fst p) = Some c /\ (true = true -> lsda_ok c (snd p) = true))
+         (t_fdes table_ex) /\
+  exists bs, write_table true false true 0 table_ex = Ok bs /\ length bs = 96%nat.
+Proof.
+  split; [repeat constructor|]. split.
+  - repeat constructor; eexists; (split; [reflexivity|intros _; reflexivity]).
+  - eexists. split; [vm_compute; reflexivity|reflexivity].
+Qed.
+
 (* ---------------------------------------------------------------------------------------------- *)
 (* no_panic — the table writer never panics on well-typed tables whose address sizes are powers of
    two, whose FDEs name CIEs of the table and (checked builds only) whose LSDA presence agrees with
